@@ -113,12 +113,14 @@ PredictVerdict(e) ==
 Verdict(e) ==
   CASE e.op = "rate" -> RateVerdict(e)
     [] e.op \in {"win", "draw", "rank"} -> PredictVerdict(e)
+    [] e.op = "kernel" -> [fails |-> IF W("C17") THEN C17(e) ELSE {}, cls |-> C17Classes(e), X |-> <<>>]
     [] OTHER -> ObjVerdict(e, heap, Want)
 
 \* values whose rating leaves enter the heap after the event
 Touched(e) ==
   CASE e.op = "rate" -> {e.after} \cup (IF Ok(e) THEN {e.out.value} ELSE {})
     [] e.op \in {"win", "draw", "rank"} -> {e.after}
+    [] e.op = "kernel" -> {}
     [] OTHER -> ObjTouched(e)
 
 ---------------------------------------------------------------------------
